@@ -4,12 +4,12 @@ detection_history into every meta.json."""
 import glob, io, json, os, subprocess, sys
 HERE = os.path.dirname(os.path.dirname(os.path.abspath(__file__)))
 H = json.load(open(os.path.join(HERE, "tools", "seed_history.json")))
-ROUND_OF = {"A": 1, "B": 1, "C": 2, "D": 2, "E": 3, "F": 3, "G": 4, "H": 4, "I": 5, "J": 5, "K": 6, "L": 6, "M": 7, "N": 7, "O": 8, "P": 8}
+ROUND_OF = {"A": 1, "B": 1, "C": 2, "D": 2, "E": 3, "F": 3, "G": 4, "H": 4, "I": 5, "J": 5, "K": 6, "L": 6, "M": 7, "N": 7, "O": 8, "P": 8, "Q": 9, "R": 9}
 metas = {}
 for mp in sorted(glob.glob(os.path.join(HERE, "seeded", "*", "meta.json"))):
     m = json.load(open(mp))
     sid = m["seed_id"]
-    m["round"] = ROUND_OF.get(sid[-1], 8)
+    m["round"] = ROUND_OF.get(sid[-1], 9)
     m["detection_history"] = H.get(sid, "caught by the check of its property as it stood when the change was produced (quick tier, seed 1)")
     json.dump(m, open(mp, "w"), indent=1)
     metas[sid] = m
@@ -35,9 +35,9 @@ w("For every property a fresh sub-agent was given only the text of the property 
 w("/repo (nothing from /verif) and asked for two independent changes that break the property, still import, still pass")
 w("the repository suite, and need something specific to manifest. This was done several times: round 1 (`Cxx_A`, `Cxx_B`) and, each")
 w("time every change of the previous round was caught, round 2 (`Cxx_C`, `Cxx_D`), round 3 (`Cxx_E`, `Cxx_F`), round 4 (`Cxx_G`,")
-w("`Cxx_H`), round 5 (`Cxx_I`, `Cxx_J`), round 6 (`Cxx_K`, `Cxx_L`), round 7 (`Cxx_M`, `Cxx_N`) and round 8 (`Cxx_O`, `Cxx_P`), whose agents were also told what the earlier rounds")
+w("`Cxx_H`), round 5 (`Cxx_I`, `Cxx_J`), round 6 (`Cxx_K`, `Cxx_L`), round 7 (`Cxx_M`, `Cxx_N`), round 8 (`Cxx_O`, `Cxx_P`) and round 9 (`Cxx_Q`, `Cxx_R`), whose agents were also told what the earlier rounds")
 w("had changed and asked for another site, another mechanism and preferably another clause of the property or another kind of")
-w("trigger (rounds 4 to 8: explicitly not an absolute tolerance, a missing cache invalidation or an array shared with the caller, the")
+w("trigger (rounds 4 to 9: explicitly not an absolute tolerance, a missing cache invalidation or an array shared with the caller, the")
 w("three families that dominated rounds 2 and 3). Each change was then confirmed by")
 w("`tools/eval_seed.py` in a scratch worktree: the demonstration exits 0 on the clean tree and 1 with the patch, every")
 w("BASELINE `stable_pass` test still passes with the patch, and the registered quick command of the property (plus")
@@ -59,7 +59,7 @@ for rnd in sorted({m["round"] for m in metas.values()}):
       f"more were seen only by the check of another property). What was changed in response:")
     w()
     for sid in sorted(H):
-        if ROUND_OF.get(sid[-1], 8) == rnd:
+        if ROUND_OF.get(sid[-1], 9) == rnd:
             w(f"* **{sid}** {H[sid]}")
     w()
 w("| seed | what it changes / needs | confirmed (demo 0->1, suite passes) | checks run (quick tier, seed 1) | first report |")
